@@ -40,15 +40,28 @@ for h in (TOP, UP, DOWN):
 ENTRY = '''
 let ghost ops0 = ops@; let ghost tag0 = op_tag(ops@[pointer as int]);
 let ghost bw = lemma_inv_init(old, new, ops@);
+let ghost p0 = pointer as int; let ghost ins = tag0 == DiffTag::Insert;   // [C09]
+proof { lemma_c9_init(ops0, p0, ins); }   // [C09]
 '''
+# C09 (latest insertion position): the frame of each loop behind an opaque name (%s), and what holds where the loop is left.
+# The exactness invariant stays the last one: in the strict view without the repo hook it fails (known finding K1), and
+# nothing should be left to check behind a failed obligation.
 INV = '''
     invariant
         pointer < ops.len(), ops.len() == ops@.len(),
         op_tag(ops@[pointer as int]) == tag0, tag0 == DiffTag::Insert || tag0 == DiffTag::Delete,
         inv_pre(old, new, ops@, bw), inv_post(old, new, ops0, ops@),
+        0 <= p0, ins == (tag0 == DiffTag::Insert), %s,   // [C09]
         inv_exact(old, new, ops0, ops@),   // [C11]'''
+INV_UP = INV % 'inv_up_frame(ops0, ops@, p0, pointer as int)' + '''
+    ensures
+        pointer > 0 ==> ops@[pointer - 1] is Equal,   // [C09]'''
+INV_DOWN = INV % 'inv_down_frame(ops0, ops@, p0, pointer as int, ins)' + '''
+    ensures
+        ins ==> stuck_here(old, new, ops@, pointer as int),   // [C09]'''
 EXIT = '''
 proof { lemma_inv_exit(old, new, ops0, ops@); }
+proof { lemma_c9_exit(ops0, ops@, p0, pointer as int, ins); }   // [C09]
 '''
 
 # ------------------------------------------------------------------------------------------------- shift_diff_ops_up
@@ -57,7 +70,7 @@ i, a, b = body_range(UP)
 o.lines[i:i] = ghost('#[verifier::rlimit(150)]')
 i, a, b = body_range(UP)
 o.after('{', ENTRY, start=a, stmt=False, ind='    ')
-o.after('while let Some(prev_op__r)', INV + '''
+o.after('while let Some(prev_op__r)', INV_UP + '''
     decreases pointer, (if pointer > 0 { olen(ops@[pointer - 1]) } else { 0 }),
 ''', start=a, stmt=False)
 o.after('let this_op = ops[pointer];', '''
@@ -69,7 +82,7 @@ k = o.find('(DiffTag::Insert, DiffTag::Equal) => {', a)
 o.before('} else if ops[pointer - 1].is_empty() {', '''
 proof {
     assert(ops@ =~= shift_up_result(s1, p, suffix_len));
-    lemma_do_shift_up(old, new, ops0, s1, p, suffix_len, bw);
+    lemma_up_shift(old, new, ops0, s1, p, suffix_len, bw, p0);
 }
 ''', start=k, ind='                    ')
 # (Delete, Equal): a Delete has no new items, so nothing can be shifted
@@ -87,7 +100,7 @@ o.after('pointer -= 1;', '''
 proof {
     assert(swapped(s1, ops@, p));
     assert(swap_plain(s1, ops@, p) || swap_fixed(ops@, p));
-    lemma_do_swap(old, new, ops0, s1, ops@, p, bw);
+    lemma_up_swap(old, new, ops0, s1, ops@, p, bw, p0);
 }
 ''', start=k)
 # merges
@@ -96,7 +109,7 @@ for pat in ('ops[pointer - 1].grow_right(this_op.new_range().len());', 'ops[poin
     o.after('pointer -= 1;', '''
 proof {
     assert(ops@ =~= merge_result(s1, p));
-    lemma_do_merge(old, new, ops0, s1, p, bw);
+    lemma_up_merge(old, new, ops0, s1, p, bw, p0);
 }
 ''', start=k)
 
@@ -110,7 +123,7 @@ i, a, b = body_range(DOWN)
 o.lines[i:i] = ghost('#[verifier::rlimit(150)]')
 i, a, b = body_range(DOWN)
 o.after('{', ENTRY, start=a, stmt=False, ind='    ')
-o.after('while let Some(next_op__r)', INV + '''
+o.after('while let Some(next_op__r)', INV_DOWN + '''
     decreases ops@.len() - pointer, (if pointer + 1 < ops@.len() { olen(ops@[pointer + 1]) } else { 0 }),
 ''', start=a, stmt=False)
 o.after('let this_op = ops[pointer];', '''
@@ -121,9 +134,14 @@ k = o.find('(DiffTag::Insert, DiffTag::Equal) => {', a)
 o.before('} else if ops[pointer + 1].is_empty() {', '''
 proof {
     assert(ops@ =~= shift_down_result(s1, p, prefix_len));
-    lemma_do_shift_down(old, new, ops0, s1, p, prefix_len, bw);
+    lemma_down_shift(old, new, ops0, s1, p, prefix_len, bw, p0, ins);
 }
 ''', start=k, ind='                    ')
+# C09: where the Insert arm gives up, common_prefix_len has compared the first pair of two non-empty ranges and found them different
+kk = o.find('break;', k)
+o.lines[kk:kk] = ghost('''
+proof { lemma_c9_break(old, new, s1, p, prefix_len); }   // [C09]
+''', o.indent_of(kk))
 k = o.find('(DiffTag::Delete, DiffTag::Equal) => {', a)
 o.after('if prefix_len > 0 {', '''
 assert(false);   // dead: common_prefix_len of an empty new range is 0
@@ -137,7 +155,7 @@ o.after('pointer += 1;', '''
 proof {
     assert(swapped(s1, ops@, p + 1));
     assert(swap_plain(s1, ops@, p + 1) || swap_fixed(ops@, p + 1));
-    lemma_do_swap(old, new, ops0, s1, ops@, p + 1, bw);
+    lemma_down_swap(old, new, ops0, s1, ops@, p, bw, p0, ins);
 }
 ''', start=k)
 for pat in ('ops[pointer].grow_right(next_op.new_range().len());', 'ops[pointer].grow_right(next_op.old_range().len());'):
@@ -145,14 +163,15 @@ for pat in ('ops[pointer].grow_right(next_op.new_range().len());', 'ops[pointer]
     o.after('ops.remove(pointer + 1);', '''
 proof {
     assert(ops@ =~= merge_result(s1, p + 1));
-    lemma_do_merge(old, new, ops0, s1, p + 1, bw);
+    lemma_down_merge(old, new, ops0, s1, p, bw, p0, ins);
 }
 ''', start=k)
 
 i, a, b = body_range(DOWN)
 k = b
 while o.lines[k].strip() != 'pointer': k -= 1
-o.lines[k:k] = ghost(EXIT, '    ')
+o.lines[k:k] = ghost(EXIT + '''proof { lemma_c9_stuck_exit(old, new, ops@, pointer as int); }   // [C09]
+''', '    ')
 
 # -------------------------------------------------------------------------------------------------- cleanup_diff_ops
 # termination of the two outer loops is not proved (see the report: the pair shift up / shift down may leave the
@@ -171,16 +190,22 @@ TOPINV = '''
 '''
 for nth in (1, 2):
     k = o.find('while let Some(op__r) = ops.get(pointer)', a, nth=nth)
-    o.after('while let Some(op__r) = ops.get(pointer)', TOPINV, start=k, stmt=False)
+    # C09: the insertion pass leaves every Insert it has passed stuck (last op, or in front of an Equal it cannot slide across)
+    o.after('while let Some(op__r) = ops.get(pointer)', TOPINV if nth == 1 else TOPINV.rstrip('\n') + '''
+        ins_stuck_upto(rel_of(old, new), ops@, pointer as int),   // [C09]
+    ensures
+        ins_stuck(rel_of(old, new), ops@),   // [C09]
+''', start=k, stmt=False)
     o.after('let op = *op__r;', '''
 proof { let b = choose|b: OBox| cleanup_pre(old, new, ops@, b); assert(inv_pre(old, new, ops@, b)) by { reveal(inv_pre); } lemma_op_usable(old, new, ops@, pointer as int, b); }
 ''', start=k)
     o.before('pointer += 1;', '''
 assert(pointer < ops.len() && ops.len() == ops@.len());
-''', start=k)
+''' + ('''assert(ins_stuck_upto(rel_of(old, new), ops@, pointer as int + 1));   // [C09]
+''' if nth == 2 else ''), start=k)
     for fn in ('shift_diff_ops_up', 'shift_diff_ops_down'):
         o.before('pointer = %s(ops, old, new, pointer);' % fn, '''
-let ghost s1 = ops@;
+let ghost s1 = ops@; let ghost q1 = pointer as int;
 ''', start=k)
         o.after('pointer = %s(ops, old, new, pointer);' % fn, '''
 proof {
@@ -189,5 +214,6 @@ proof {
     assert forall|b2: OBox| #[trigger] ops_full(old, new, ops0, b2, false) implies ops_full(old, new, ops@, b2, false) by { assert(ops_full(old, new, s1, b2, false)); }
     assert forall|b2: OBox| #[trigger] ops_full(old, new, ops0, b2, true) implies ops_full(old, new, ops@, b2, true) by { assert(ops_full(old, new, s1, b2, true)); }   // [C11]
 }
-''', start=k)
+''' + ('' if nth == 1 else '''proof { %s(rel_of(old, new), s1, ops@, q1, pointer as int); }   // [C09]
+''' % ('lemma_stuck_after_up' if fn == 'shift_diff_ops_up' else 'lemma_stuck_after_down')), start=k)
 o.save()
